@@ -1,5 +1,18 @@
 """Texts for MANIFEST.json. A property is listed in CLAIMED only once its check is silent on the unchanged tree."""
 HOOK_COMMITS = []
 NOTES = "All checks: ./check <id> --tier quick|thorough. Lean theorems are about hand-written models; the correspondence run ties them to /repo's working tree on every run. See DESIGN.md."
-CLAIMED = {}
+NOTE = ("theorem about a hand-written Lean model; tied to /repo's working tree by the differential correspondence run of the same check "
+        "(its reach is its generators' reach); Lean kernel + propext/Classical.choice/Quot.sound only; harness + cfg(redb_verif) hooks trusted")
+CLAIMED = {
+    "C15": {
+        "text": "Lean theorems over ALL key-type descriptors (nested arbitrarily) and all valid encodings: the comparator is a total preorder "
+                "respecting equality (pairs and triples), the separator of a<b is a valid encoding s with a<=s<b and len(s)<=len(a), branch "
+                "separators of fixed-width types are never shortened, min_encoded_key is least. The model's compare/fixed_width/min key are "
+                "compared exactly with the real functions on generated values of 40 concrete types; real separators are judged by the "
+                "proved decidable contract. Proof is the right level because the quantifier is over all inputs of pure functions.",
+        "note": NOTE + "; chrono types, f32/f64 and user-defined Key impls are out of scope; value-level decode(encode v)=v and compare==Ord are checked by the harness oracle on the implementation (not yet a Lean theorem)",
+        "technique": "Lean 4 proof (induction over key-type descriptors) + differential correspondence",
+        "design_ref": "DESIGN.md §6 C15",
+    },
+}
 NOT_YET = {}
